@@ -506,11 +506,12 @@ class _Pass:
                         r = self.as_ptr(a)
                         old = self.load(st, r)
                         self.store(st, r, ('after', site, callee, old, argvals, ai + 1))
+            dest_ref = self.place_ref(st, t['dest'])
             if self.record:
-                self.sum.calls.append(dict(blk=bi, line=t['line'], callee=callee, decl=t.get('decl'), argvals=argvals,
+                self.sum.calls.append(dict(blk=bi, line=t['line'], callee=callee, decl=t.get('decl'), argvals=argvals, dest=dest_ref,
                                            gargs=tuple(t.get('gargs', [])), args=args, site=site, term=t,
                                            result=res, exp=bool(t.get('exp'))))
-            self.store(st, self.place_ref(st, t['dest']), res)
+            self.store(st, dest_ref, res)
         elif k == 'switch':
             if self.record:
                 self.sum.switches[bi] = self.operand(st, t['discr'])
